@@ -251,6 +251,38 @@ fn random_sparse(rng: &mut Rng, max_extra: usize) -> Pos {
     loop {
         let mut b = [0u8; 64];
         let family = FAMILY.with(|f| f.get());
+        if family == 3 {
+            // K + (Q or R) against the lone king: deep forced mates of different lengths
+            let strong_white = rng.chance(1, 2);
+            // the lone king stands on the edge with the other king close by: mates in 2 and 3 abound
+            let edge: Vec<usize> = (0..64).filter(|s| s % 8 == 0 || s % 8 == 7 || s / 8 == 0 || s / 8 == 7).collect();
+            let lone = edge[rng.below(edge.len())];
+            let strong = rng.below(64);
+            let x = rng.below(64);
+            let d = ((lone % 8) as i32 - (strong % 8) as i32).abs().max(((lone / 8) as i32 - (strong / 8) as i32).abs());
+            if d < 2 || d > 3 || x == lone || x == strong {
+                continue;
+            }
+            let (wk, bk) = if strong_white { (strong, lone) } else { (lone, strong) };
+            b[wk] = 6;
+            b[bk] = 12;
+            let kind = if rng.chance(3, 4) { 5 } else { 4 };
+            b[x] = if strong_white { kind } else { kind + 6 };
+            // the defender moves first (the attacker's mates are then at odd distances below the root)
+            let turn = if strong_white { 0 } else { 1 };
+            let pos = Pos { b, turn, rights: 0, ep: 0 };
+            let board = pos.setup();
+            let mut g = MoveGenerator::with_cache_capacity(16);
+            if evaluate::player_is_in_check(&board, &mut g, board.turn().opposite()) {
+                continue;
+            }
+            let mut b2 = board.clone();
+            let t = b2.turn();
+            if g.generate_moves(&mut b2, t).is_empty() {
+                continue;
+            }
+            return pos;
+        }
         if family == 2 {
             if let Some(p) = random_before_terminal(rng, RETRO.with(|r| r.get())) {
                 return p;
@@ -324,6 +356,9 @@ pub fn exact(args: &[String]) {
     let threads = arg_u64(args, "--threads", 4) as usize;
     if arg_val(args, "--family").as_deref() == Some("bare") {
         FAMILY.with(|f| f.set(1));
+    }
+    if arg_val(args, "--family").as_deref() == Some("kxk") {
+        FAMILY.with(|f| f.set(3));
     }
     if arg_val(args, "--family").as_deref() == Some("terminal") {
         // roots exactly `depth` plies before a stalemate / mate of a lone king
